@@ -56,6 +56,9 @@ CLAIMS = {
  "C20": ("fault_enumeration", "8.C20", "deterministic simulation: FeliCa Lite/Lite-S/NTAG21x silicon models with independent MAC computation; tamper-in-transit fault at every bit of MAC protected responses",
          "authenticate(pw) must be True exactly when the key derived from pw (modulo DES parity bits) equals the key held by the model; protect(pw) + field reset + authenticate(pw) / authenticate(other); after authentication every single-bit flip of the data and MAC bytes of read_with_mac responses (1-3 blocks) and seeded multi-bit substitutions must be detected; PACK answers of NTAG21x flipped bit by bit.",
          "Lite models compute session key, MAC and MAC_A with an own DES (FIPS vectors checked at import); passwords are bytes; MAC_A protected reads and Mifare Ultralight C 3DES authentication are not modelled"),
+ "C15": ("exploration", "8.C15", "deterministic simulation: 2-4 application threads on one real ContactlessFrontend under a seeded scheduler (pre-emption at synchronisation operations and source lines, threads blocked in virtual time inside driver calls); recording driver proxy as oracle",
+         "Seeded exploration over thread programs (open, close, with-block, sense, listen, exchange, size queries, connect(rdwr/llcp/card) with callbacks using the tag, beep on/off) x schedules x environments (W4 stub driver with tag models arriving/leaving; real udp driver with a live second stack): at entry of every driver method the frontend lock must be held by the calling thread, no other thread may be inside the driver, the device object must not have been closed before; all 17 syntactic self.device call sites of the frontend are reached (coverage measure).",
+         "a driver call = a public method call on the object stored in ContactlessFrontend.device; sampling of schedules, not their enumeration"),
 }
 NA = {
  "C11": "pure encode/decode function of its argument: no schedule, clock, fault, peer or history enters the statement; deterministic simulation adds nothing over input generation (DESIGN.md section 9)",
